@@ -60,7 +60,13 @@ func c08Content(t *rapid.T, i, nfiles int) string {
 	n := rapid.IntRange(1, 3).Draw(t, "nfrag")
 	for k := 0; k < n; k++ {
 		j := rapid.IntRange(0, nfiles-1).Draw(t, "other")
-		switch rapid.IntRange(0, 6).Draw(t, "frag") {
+		switch rapid.IntRange(0, 7).Draw(t, "frag") {
+		case 7:
+			if j != i {
+				fmt.Fprintf(&b, "dofile(\"%s\")\n", c08Name(j)) // refers to another file by its path with suffix
+			} else {
+				fmt.Fprintf(&b, "print(%d)\n", k)
+			}
 		case 0:
 			fmt.Fprintf(&b, "local a%d_%d = 1\nprint(a%d_%d)\n", i, k, i, k)
 		case 1:
